@@ -15,8 +15,24 @@ A *suspension that may take time* is `yield <anything but literal 0>` or `yield 
 joined pessimistically (stale in one branch = stale), loop bodies are interpreted twice so a
 yield at the bottom of a loop reaches the top.
 
+Scope: happysimulator/{components,load,faults,instrumentation}/** are in the census; every other file of the
+library is interpreted too, but only for its call sites (caller rule).
+
+Further classes of time expressions (rules in _entry_classes / _classify_unrelated):
+  completion-hook-time  the parameter of a nested function registered with add_completion_hook (the engine calls a
+                        hook with the clock now: every hook call site of the library is checked, `hook_calls`)
+  caller-now            a parameter of a private method / closure that every call site in the library fills with an
+                        F value (least fixpoint over the call graph, by method name and class relation)
+  interface-now         the same for a public method (library call sites only)
+  start-time            `start_time` inside a pre-run builder (start*/schedule_first*/generate_events)
+  pre-run-absolute      Instant.from_seconds(<configured>) / Instant.Epoch in a pre-run builder
+  ctor-pass-through     super().__init__(time=time) in an Event subclass constructor (counted at its call sites)
+  user-supplied-time    module-level public workload builder: the caller chooses the time
+  (records with a `time=` field that are not Event subclasses - RateSnapshot, Memory, ScalingEvent - are not sites)
+Loops `while True: d = next(gen); yield d` are classified `delegation` (a hand-rolled `yield from`).
+
 Reported:
-  * stale sites   - an event handed to the engine (`return`, `yield d, events`, or constructed
+  * stale sites  - an event handed to the engine (`return`, `yield d, events`, or constructed
                     inline there) whose timestamp is S / whose object is ES;
   * spin loops    - `while` loops in generators whose every suspension is a literal-zero yield
                     and whose body writes nothing the loop test reads (only another process can
@@ -67,14 +83,91 @@ def _positive_literal(node):
             and not isinstance(node.value, bool) and node.value > 0)
 
 
+def _callee_name(func):
+    """terminal name of a call target: `Event`, `mod.Event`, `Event.once` -> "Event" / "Event" / "once" """
+    if isinstance(func, ast.Name):
+        return func.id
+    if isinstance(func, ast.Attribute):
+        return func.attr
+    return None
+
+
+class _Lib:
+    """library-wide class table (names only; nothing is imported): which classes are Event subclasses,
+    which classes are related by inheritance"""
+
+    def __init__(self, repo_root=None):
+        self.bases = {}         # class name -> set of base names (classes of the same name are merged)
+        if repo_root is None:
+            self.events = {"Event"}
+            return
+        base = os.path.join(repo_root, "happysimulator")
+        for dirpath, _dirs, files in sorted(os.walk(base)):
+            for f in sorted(files):
+                if not f.endswith(".py"):
+                    continue
+                try:
+                    tree = ast.parse(open(os.path.join(dirpath, f), encoding="utf-8").read())
+                except SyntaxError:
+                    continue
+                for n in ast.walk(tree):
+                    if isinstance(n, ast.ClassDef):
+                        self.bases.setdefault(n.name, set()).update(
+                            b for b in (_callee_name(x) for x in n.bases) if b)
+        self.events = {"Event"}
+        changed = True
+        while changed:
+            changed = False
+            for c, bs in self.bases.items():
+                if c not in self.events and bs & self.events:
+                    self.events.add(c)
+                    changed = True
+
+    def ancestors(self, c):
+        seen, todo = set(), [c]
+        while todo:
+            x = todo.pop()
+            for b in self.bases.get(x, ()):
+                if b not in seen:
+                    seen.add(b)
+                    todo.append(b)
+        return seen
+
+    def related(self, a, b):
+        """same class, or one inherits from the other (by name)"""
+        return a == b or a in self.ancestors(b) or b in self.ancestors(a)
+
+    def is_event_class(self, name):
+        return name in self.events
+
+    def is_other_class(self, name):
+        """a library class that is not an Event: a record with a `time` field (RateSnapshot, ...), not an emission"""
+        return name in self.bases and name not in self.events
+
+
+# public methods that build the first event(s) of a component for `sim.schedule(...)` before the run
+_PRE_RUN_NAME = ("start", "schedule_first", "generate_events")
+
+
 class _Fn:
     """abstract interpreter for one function body"""
 
-    def __init__(self, relpath, qual, node, out):
+    def __init__(self, relpath, qual, node, out, cls=None, lib=None, entry=None, calls=None):
         self.relpath, self.qual, self.node, self.out = relpath, qual, node, out
         self.params = [a.arg for a in node.args.args + node.args.kwonlyargs]
         self.is_gen = any(isinstance(n, (ast.Yield, ast.YieldFrom)) for n in self._own_nodes(node))
         self.reported = set()
+        self.cls = cls                  # name of the enclosing class (None: module level)
+        self.lib = lib or _Lib()        # library-wide class table
+        self.entry = dict(entry or {})  # parameter -> origin ("hook" / "caller"): equals the clock at entry
+        self.calls = calls if calls is not None else {}
+
+    def entry_state(self):
+        st = {"<entry>": "F"}
+        for p, origin in self.entry.items():
+            st[p] = "F"
+            st["^" + p] = frozenset([origin])
+        return st
 
     @staticmethod
     def _own_nodes(fn):
@@ -97,6 +190,77 @@ class _Fn:
         return (isinstance(e, ast.Attribute) and e.attr == "time" and isinstance(e.value, ast.Name)
                 and e.value.id in self.params)
 
+    @property
+    def pre_run(self):
+        """a public, non-generator, non-nested function named start* / schedule_first* / generate_events: it builds the
+        component's first event(s), which the user (or Simulation.__init__) schedules before the run starts"""
+        return ("<locals>" not in self.qual and not self.is_gen and not self.node.name.startswith("_")
+                and self.node.name.startswith(_PRE_RUN_NAME))
+
+    def _is_start_read(self, e):
+        """in a pre-run builder the clock at the hand-over is the run's start time: `start_time` / `X.start_time`"""
+        if not self.pre_run:
+            return False
+        return ((isinstance(e, ast.Name) and e.id == "start_time" and e.id in self.params)
+                or (isinstance(e, ast.Attribute) and e.attr == "start_time"))
+
+    def origins(self, e, st):
+        """where the clock-related parts of a time expression come from: now / start / hook / caller / interface"""
+        out = set()
+        for n in ast.walk(e):
+            if self._is_now_read(n) or self._is_param_time(n):
+                out.add("now")
+            elif self._is_start_read(n):
+                out.add("start")
+            elif isinstance(n, ast.Name) and st.get(n.id) in ("F", "S"):
+                out |= set(st.get("^" + n.id, ("now",)))
+        return out
+
+    def _classify_unrelated(self, call, texpr, st):
+        """class of a time expression that reads no clock"""
+        f = call.func
+        if (self.node.name == "__init__" and self.cls and self.lib.is_event_class(self.cls)
+                and isinstance(texpr, ast.Name) and texpr.id in self.params
+                and isinstance(f, ast.Attribute) and f.attr == "__init__"):
+            return "ctor-pass-through"          # Event subclass constructor: stamped (and counted) at its call sites
+        absolute = ((isinstance(texpr, ast.Call) and _src(texpr.func) == "Instant.from_seconds" and len(texpr.args) == 1)
+                    or _src(texpr) == "Instant.Epoch")
+        if self.pre_run and absolute:
+            return "pre-run-absolute"           # Instant.from_seconds(<configured>) / Instant.Epoch, scheduled before the run
+        if self.cls is None and "<locals>" not in self.qual and not self.node.name.startswith("_"):
+            return "user-supplied-time"         # module-level workload builder: the caller chooses the time
+        return "other"
+
+    def _record_calls(self, e, st):
+        """remember, for the caller rule, the clock class of every argument of every call in expression e"""
+        for n in ast.walk(e):
+            if not isinstance(n, ast.Call):
+                continue
+            f = n.func
+            if isinstance(f, ast.Attribute):
+                kind = "self" if isinstance(f.value, ast.Name) and f.value.id == "self" else "obj"
+                name = f.attr
+            elif isinstance(f, ast.Name):
+                kind, name = "name", f.id
+            else:
+                continue
+            star = any(isinstance(a, ast.Starred) for a in n.args) or any(kw.arg is None for kw in n.keywords)
+
+            def tg(x):
+                t = self.tag_expr(x, st)
+                return t if t != "F" else ("F:" + ",".join(sorted(self.origins(x, st))))
+            rec = {"cls": self.cls, "file": self.relpath, "fn": self.qual, "line": n.lineno, "star": star,
+                   "pos": [tg(a) for a in n.args if not isinstance(a, ast.Starred)],
+                   "kw": {kw.arg: tg(kw.value) for kw in n.keywords if kw.arg is not None}}
+            site = self.calls.setdefault((kind, name), {})
+            key = (self.relpath, self.qual, n.lineno, n.col_offset)
+            old = site.get(key)
+            if old is not None:         # visited again (loop bodies are interpreted twice): keep the worse class
+                rec["pos"] = [o if not o.startswith("F") else x for o, x in zip(old["pos"], rec["pos"])]
+                rec["kw"] = {k: (old["kw"].get(k, x) if not old["kw"].get(k, "F").startswith("F") else x)
+                             for k, x in rec["kw"].items()}
+            site[key] = rec
+
     def tag_expr(self, e, st):
         """F / S / U for a time-valued expression"""
         if (isinstance(e, ast.IfExp) and any(isinstance(n, ast.Attribute) and n.attr == "_clock" for n in ast.walk(e.test))
@@ -106,7 +270,7 @@ class _Fn:
             return self.tag_expr(e.body, st)
         tags = set()
         for n in ast.walk(e):
-            if self._is_now_read(n):
+            if self._is_now_read(n) or self._is_start_read(n):
                 tags.add("F")
             elif self._is_param_time(n):
                 tags.add(st.get("<entry>", "F"))
@@ -122,8 +286,16 @@ class _Fn:
         """Call nodes with a `time=` keyword (Event and subclasses) and self.forward(...) calls"""
         for n in ast.walk(e):
             if isinstance(n, ast.Call):
+                callee = _callee_name(n.func)
                 if any(kw.arg == "time" for kw in n.keywords):
+                    if callee and self.lib.is_other_class(callee):
+                        # a library record with a `time` field (RateSnapshot(time=...)): nothing is emitted
+                        self.out.setdefault("non_events", {})[(self.relpath, self.qual, n.lineno)] = callee
+                        continue
                     yield n, next(kw.value for kw in n.keywords if kw.arg == "time")
+                elif (isinstance(n.func, ast.Name) and self.lib.is_event_class(callee) and n.args
+                      and not isinstance(n.args[0], ast.Starred)):
+                    yield n, n.args[0]      # Event(<time>, ...): positional timestamp
                 elif isinstance(n.func, ast.Attribute) and n.func.attr == "forward" and len(n.args) + len(n.keywords) >= 2:
                     yield n, None          # Entity.forward stamps self.now at the call
 
@@ -136,12 +308,20 @@ class _Fn:
             t = "F" if texpr is None else self.tag_expr(texpr, st)
             # (a stale stamp only matters if it is still there at the hand-over: classified in _handover)
             klass = {"F": "clock-now(+offset)", "S": "clock-now(+offset)", "U": "other"}[t]
+            if t in "FS" and texpr is not None:
+                org = self.origins(texpr, st)
+                if "now" not in org:
+                    klass = next((k for o, k in (("start", "start-time(+offset)"), ("hook", "completion-hook-time(+offset)"),
+                                                 ("caller", "caller-now(+offset)"), ("interface", "interface-now(+offset)"))
+                                  if o in org), klass)
             if t in "FS" and texpr is not None and any(isinstance(n, (ast.Sub, ast.USub)) for n in ast.walk(texpr)):
                 klass = "other"         # clock minus something: not of the shape now + offset
+            if t == "U" and texpr is not None:
+                klass = self._classify_unrelated(call, texpr, st)
             key = (self.relpath, self.qual, call.lineno, call.col_offset)
             prev = self.out["sites"].get(key)
-            rank = {"clock-now(+offset)": 0, "other": 1, "stale": 2}
-            if prev is None or rank[klass] > rank[prev["class"]]:
+            rank = {"other": 1, "stale": 2}
+            if prev is None or rank.get(klass, 0) > rank.get(prev["class"], 0):
                 self.out["sites"][key] = {"file": self.relpath, "function": self.qual, "line": call.lineno,
                                           "generator": self.is_gen,
                                           "time": "self.forward" if texpr is None else _src(texpr), "class": klass}
@@ -161,6 +341,7 @@ class _Fn:
                                                          f"take time (or with a value read before it)")
         if ev:
             return ev
+        self._val_origins = frozenset(self.origins(e, st))
         return self.tag_expr(e, st)
 
     def _mark_stale(self, key, why, handed):
@@ -182,6 +363,7 @@ class _Fn:
 
     def _suspensions(self, e, st):
         """process yields inside expression/statement e in source order: hand-over then staling"""
+        self._record_calls(e, st)
         ys = [n for n in ast.walk(e) if isinstance(n, (ast.Yield, ast.YieldFrom))]
         ys.sort(key=lambda n: (n.lineno, n.col_offset))
         for y in ys:
@@ -204,11 +386,15 @@ class _Fn:
         if isinstance(target, ast.Name):
             if val_tag in ("F", "S", "EF", "ES"):
                 st[target.id] = val_tag
+                st.pop("^" + target.id, None)
                 if val_tag in ("EF", "ES"):
                     st["@" + target.id] = frozenset(self._expr_sites)
+                elif getattr(self, "_val_origins", None):
+                    st["^" + target.id] = self._val_origins
             else:
                 st.pop(target.id, None)
                 st.pop("@" + target.id, None)
+                st.pop("^" + target.id, None)
         elif isinstance(target, (ast.Tuple, ast.List)):
             for t in target.elts:
                 self._assign(t, "U", st, line)
@@ -228,7 +414,7 @@ class _Fn:
         out = {}
         for k in set(a) | set(b):
             va, vb = a.get(k), b.get(k)
-            if k.startswith("@"):
+            if k.startswith(("@", "^")):
                 out[k] = frozenset(va or ()) | frozenset(vb or ())
                 continue
             if va == vb:
@@ -304,6 +490,7 @@ class _Fn:
                 if isinstance(s, ast.While):
                     self._suspensions(s.test, cur)
                 else:
+                    self._record_calls(s.iter, cur)
                     self._assign(s.target, "U", cur, s.lineno)
                 saved_breaks = getattr(self, "_breaks", [])
                 self._breaks = []
@@ -396,10 +583,34 @@ class _Fn:
             walk(self.node)
         return self._loop_numbers.get(id(loop))
 
+    @staticmethod
+    def _is_delegation(loop):
+        """`while True: d = next(gen); [acc += d ...]; yield d` - nothing else in the body"""
+        if not (isinstance(loop, ast.While) and isinstance(loop.test, ast.Constant) and loop.test.value is True
+                and len(loop.body) >= 2 and not loop.orelse):
+            return False
+        first = loop.body[0]
+        if not (isinstance(first, ast.Assign) and len(first.targets) == 1 and isinstance(first.targets[0], ast.Name)
+                and isinstance(first.value, ast.Call) and isinstance(first.value.func, ast.Name)
+                and first.value.func.id == "next" and len(first.value.args) == 1 and isinstance(first.value.args[0], ast.Name)):
+            return False
+        x = first.targets[0].id
+        n_yield = 0
+        for b in loop.body[1:]:
+            if isinstance(b, ast.AugAssign) and isinstance(b.target, ast.Name) and b.target.id != x \
+                    and not any(isinstance(n, (ast.Yield, ast.YieldFrom, ast.Call)) for n in ast.walk(b.value)):
+                continue
+            if (isinstance(b, ast.Expr) and isinstance(b.value, ast.Yield) and isinstance(b.value.value, ast.Name)
+                    and b.value.value.id == x):
+                n_yield += 1
+                continue
+            return False
+        return n_yield == 1
+
     def _loop_census(self, loop):
-        if getattr(loop, "_c07_seen", False):
+        if id(loop) in self.out["_seen_loops"]:
             return
-        loop._c07_seen = True
+        self.out["_seen_loops"].add(id(loop))
         body_nodes = []
         stack = list(loop.body)
         while stack:
@@ -421,8 +632,14 @@ class _Fn:
             rec["cert_kind"] = "bounded"
             self.out["loops"].append(rec)
             return
+        if self._is_delegation(loop):
+            rec["certificate"] = ("delegation (a hand-rolled `yield from`): every iteration takes one suspension from the driven "
+                                  "sub-generator with next() and re-yields it; the loop ends with the sub-generator (StopIteration)")
+            rec["cert_kind"] = "delegation"
+            self.out["loops"].append(rec)
+            return
         delays = [(_yield_delay(y) if isinstance(y, ast.Yield) else None) for y in ys]
-        all_zero = all(isinstance(y, ast.Yield) and d is not None and _is_zero_literal(d) for y, d in zip(ys, delays))
+        all_zero =all(isinstance(y, ast.Yield) and d is not None and _is_zero_literal(d) for y, d in zip(ys, delays))
         all_pos = all(isinstance(y, ast.Yield) and d is not None and _positive_literal(d) for y, d in zip(ys, delays))
         # exit conditions: the loop test and the tests of `if`s whose branch leaves the loop
         exit_tests = [loop.test]
@@ -469,38 +686,215 @@ class _Fn:
         self.out["loops"].append(rec)
 
 
-def scan(repo_root):
-    """returns {"stale": [...], "spin": [...], "loops": [...], "census": {...}}"""
-    base = os.path.join(repo_root, "happysimulator", "components")
-    out = {"sites": {}, "loops": []}
-    nfiles = nfuncs = ngens = 0
-    for dirpath, _dirs, files in sorted(os.walk(base)):
+def _params_of(node, is_method):
+    a = node.args
+    pos = [x.arg for x in a.posonlyargs + a.args]
+    if is_method and pos and pos[0] in ("self", "cls"):
+        pos = pos[1:]
+    return pos, [x.arg for x in a.kwonlyargs]
+
+
+def _entry_classes(funcs, calls, lib):
+    """the caller rule and the completion-hook rule: {(relpath, qualname): {param: origin}}
+
+    hook      a nested function registered with `<event>.add_completion_hook(<name>)` in its enclosing function and
+              never called by name: the engine calls it with the clock now (checked separately: hook_calls)
+    caller    a private method / private module function / nested function: every call site in the library passes a
+              value that equals the clock there (class F) for the parameter
+    interface a public method: the same, over the call sites inside the library (user code calling it with another
+              time is not a library emission)
+    """
+    out = {}
+    for rel, q, node, cls, parent, _census in funcs:
+        name = node.name
+        nested = parent is not None
+        decos = {_callee_name(d.func if isinstance(d, ast.Call) else d) for d in node.decorator_list}
+        is_method = cls is not None and not nested and "staticmethod" not in decos
+        pos, kwonly = _params_of(node, is_method)
+        if not pos and not kwonly:
+            continue
+        if name.startswith("__") and name.endswith("__"):
+            continue
+        if nested:
+            owner = q[:-len(".<locals>." + name)]       # the enclosing function: it and its closures can call `name`
+            sites = [r for r in calls.get(("name", name), {}).values()
+                     if r["file"] == rel and (r["fn"] == owner or r["fn"].startswith(owner + ".<locals>."))]
+            registered = any(isinstance(n, ast.Call) and isinstance(n.func, ast.Attribute) and n.func.attr == "add_completion_hook"
+                             and len(n.args) == 1 and isinstance(n.args[0], ast.Name) and n.args[0].id == name
+                             for n in ast.walk(parent))
+            escapes = sum(1 for n in ast.walk(parent) if isinstance(n, ast.Name) and n.id == name and isinstance(n.ctx, ast.Load))
+            # (the engine calls a hook with one positional argument: further parameters must have defaults)
+            if registered and not sites and escapes == 1 and pos and len(node.args.defaults) >= len(pos) - 1:
+                out[(rel, q)] = {pos[0]: "hook"}
+                continue
+            if escapes != len(sites):
+                continue            # the function value escapes (stored / passed on): unknown callers
+            origin = "caller"
+        elif cls is not None:
+            sites = [r for r in calls.get(("self", name), {}).values() if r["cls"] and lib.related(r["cls"], cls)]
+            sites += list(calls.get(("obj", name), {}).values())
+            origin = "caller" if name.startswith("_") else "interface"
+        else:
+            sites = [r for r in calls.get(("name", name), {}).values() if r["file"] == rel]
+            sites += list(calls.get(("obj", name), {}).values())
+            if not name.startswith("_"):
+                continue            # public module-level function: user code calls it
+            origin = "caller"
+        if not sites or any(r["star"] for r in sites):
+            continue
+        got = {}
+        for i, p in enumerate(pos + kwonly):
+            tags = []
+            for r in sites:
+                if p in r["kw"]:
+                    tags.append(r["kw"][p])
+                elif p in pos and i < len(r["pos"]):
+                    tags.append(r["pos"][i])
+                else:
+                    tags.append("U")            # default value used
+            if all(t.startswith("F:") for t in tags):
+                # a parameter filled from start_time at some call site is the clock only before the run: keep it apart
+                got[p] = "start" if any("start" in t[2:].split(",") for t in tags) else origin
+        if got:
+            out[(rel, q)] = got
+    return out
+
+
+def _hook_call_sites(repo_root):
+    """every place in the library that CALLS a completion hook, with the argument it passes: [(file, line, arg, ok)].
+    A hook is an element of some `<x>.on_complete` list; `ok` = the argument is the clock now:
+    `self.now`, or the `time` parameter of Event._run_completion_hooks whose callers all pass `self.time` from
+    Event.invoke / ProcessContinuation.invoke (there the event being invoked is the one just popped: C01 clock == its time)"""
+    found = []
+    hs = os.path.join(repo_root, "happysimulator")
+    for dirpath, _dirs, files in sorted(os.walk(hs)):
         for f in sorted(files):
             if not f.endswith(".py"):
                 continue
             p = os.path.join(dirpath, f)
-            rel = os.path.relpath(p, os.path.join(repo_root, "happysimulator"))
             try:
                 tree = ast.parse(open(p, encoding="utf-8").read())
             except SyntaxError:
                 continue
-            nfiles += 1
+            rel = os.path.relpath(p, hs)
+            for fn in ast.walk(tree):
+                if not isinstance(fn, (ast.FunctionDef, ast.AsyncFunctionDef)):
+                    continue
+                # names bound to `<x>.on_complete` (or a copy of it) in this function
+                lists = set()
+                for n in ast.walk(fn):
+                    if isinstance(n, ast.Assign) and len(n.targets) == 1 and isinstance(n.targets[0], ast.Name) \
+                            and any(isinstance(x, ast.Attribute) and x.attr == "on_complete" for x in ast.walk(n.value)):
+                        lists.add(n.targets[0].id)
+                for loop in ast.walk(fn):
+                    if not (isinstance(loop, ast.For) and isinstance(loop.target, ast.Name)):
+                        continue
+                    it = loop.iter
+                    over_hooks = (any(isinstance(x, ast.Attribute) and x.attr == "on_complete" for x in ast.walk(it))
+                                  or (isinstance(it, ast.Name) and it.id in lists))
+                    if not over_hooks:
+                        continue
+                    h = loop.target.id
+                    for n in ast.walk(loop):
+                        if isinstance(n, ast.Call) and isinstance(n.func, ast.Name) and n.func.id == h:
+                            arg = _src(n.args[0]) if len(n.args) == 1 and not n.keywords else "?"
+                            found.append({"file": rel, "function": fn.name, "line": n.lineno, "arg": arg})
+                for n in ast.walk(fn):
+                    if isinstance(n, ast.Call) and isinstance(n.func, ast.Attribute) and n.func.attr == "_run_completion_hooks":
+                        arg = _src(n.args[0]) if len(n.args) == 1 and not n.keywords else "?"
+                        found.append({"file": rel, "function": fn.name, "line": n.lineno, "arg": arg, "relay": True})
+    found = list({(r["file"], r["line"], bool(r.get("relay"))): r for r in found}.values())
+    relays_ok = all(r["arg"] == "self.time" and r["function"] == "invoke" and r["file"] == "core/event.py"
+                    for r in found if r.get("relay"))
+    for r in found:
+        if r.get("relay"):
+            r["ok"] = r["arg"] == "self.time" and r["function"] == "invoke" and r["file"] == "core/event.py"
+        elif r["function"] == "_run_completion_hooks":
+            r["ok"] = r["arg"] == "time" and relays_ok
+        else:
+            r["ok"] = r["arg"] == "self.now"
+    return found
 
-            def visit(node, stack):
-                nonlocal nfuncs, ngens
-                for ch in ast.iter_child_nodes(node):
-                    if isinstance(ch, ast.ClassDef):
-                        visit(ch, stack + [ch.name])
-                    elif isinstance(ch, (ast.FunctionDef, ast.AsyncFunctionDef)):
-                        q = ".".join(stack + [ch.name])
-                        nfuncs += 1
-                        fi = _Fn(rel, q, ch, out)
-                        ngens += fi.is_gen
-                        fi.run_block(ch.body, {"<entry>": "F"})
-                        visit(ch, stack + [ch.name, "<locals>"])
-                    else:
-                        visit(ch, stack)
-            visit(tree, [])
+
+def ctor_rejects_nonpositive(repo_root, relfile, classname, param):
+    """does `classname.__init__` (file relative to happysimulator/) contain `if <param> <= 0: raise ...` at its top level?"""
+    try:
+        tree = ast.parse(open(os.path.join(repo_root, "happysimulator", relfile), encoding="utf-8").read())
+    except (OSError, SyntaxError):
+        return False
+    for c in ast.walk(tree):
+        if not (isinstance(c, ast.ClassDef) and c.name == classname):
+            continue
+        for f in c.body:
+            if not (isinstance(f, ast.FunctionDef) and f.name == "__init__"):
+                continue
+            if param not in [a.arg for a in f.args.args + f.args.kwonlyargs]:
+                return False
+            for st in f.body:
+                if (isinstance(st, ast.If) and isinstance(st.test, ast.Compare) and len(st.test.ops) == 1
+                        and isinstance(st.test.ops[0], ast.LtE) and isinstance(st.test.left, ast.Name)
+                        and st.test.left.id == param and _is_zero_literal(st.test.comparators[0])
+                        and st.body and isinstance(st.body[0], ast.Raise)):
+                    # the parameter must not be re-bound before the check
+                    before = f.body[:f.body.index(st)]
+                    if not any(isinstance(n, ast.Name) and n.id == param and isinstance(n.ctx, ast.Store)
+                               for b in before for n in ast.walk(b)):
+                        return True
+    return False
+
+
+def scan(repo_root, subdirs=("components", "load", "faults", "instrumentation")):
+    """returns {"stale": [...], "spin": [...], "loops": [...], "census": {...}}"""
+    lib = _Lib(repo_root)
+    hs = os.path.join(repo_root, "happysimulator")
+    paths = []
+    for dirpath, _dirs, files in sorted(os.walk(hs)):
+        paths.extend(os.path.join(dirpath, f) for f in sorted(files) if f.endswith(".py"))
+    # every function of every file of the library: (relpath, qualname, node, enclosing class, enclosing function node,
+    # in the census?).  Files outside `subdirs` are interpreted only for their call sites (caller rule).
+    funcs, nfiles = [], 0
+    for p in paths:
+        rel = os.path.relpath(p, hs)
+        census = any(rel == sub or rel.startswith(sub.rstrip("/") + "/") for sub in subdirs)
+        try:
+            tree = ast.parse(open(p, encoding="utf-8").read())
+        except SyntaxError:
+            continue
+        nfiles += census
+
+        def visit(node, stack, cls, parent):
+            for ch in ast.iter_child_nodes(node):
+                if isinstance(ch, ast.ClassDef):
+                    visit(ch, stack + [ch.name], ch.name, parent)
+                elif isinstance(ch, (ast.FunctionDef, ast.AsyncFunctionDef)):
+                    funcs.append((rel, ".".join(stack + [ch.name]), ch, cls, parent, census))
+                    visit(ch, stack + [ch.name, "<locals>"], cls, ch)
+                else:
+                    visit(ch, stack, cls, parent)
+        visit(tree, [], None, None)
+    # the caller rule needs the classes of the arguments at the call sites, which depend on the entry classes of the
+    # callers' own parameters: iterate (entry classes only ever grow from the empty assignment; 4 rounds are plenty)
+    entry = {}
+    for _round in range(5):
+        out = {"sites": {}, "loops": [], "_seen_loops": set(), "non_events": {}}
+        calls = {}
+        nfuncs = ngens = 0
+        used = entry
+        for rel, q, node, cls, parent, census in funcs:
+            sink = out if census else {"sites": {}, "loops": [], "_seen_loops": set(), "non_events": {}}
+            fi = _Fn(rel, q, node, sink, cls=cls, lib=lib, entry=entry.get((rel, q)), calls=calls)
+            if census:
+                nfuncs += 1
+                ngens += fi.is_gen
+            fi.run_block(node.body, fi.entry_state())
+        new_entry = _entry_classes(funcs, calls, lib)
+        if new_entry == entry:
+            break
+        entry = new_entry
+    out.pop("_seen_loops")
+    out["entry_classes"] = {f"{rel}::{q}": v for (rel, q), v in sorted(used.items())}
+    out["hook_calls"] = _hook_call_sites(repo_root)
+    out["non_events"] = [f"{rel}:{line} {q}: {callee}(time=...)" for (rel, q, line), callee in sorted(out["non_events"].items())]
     # ordinal of a construction site within its function (stable under unrelated edits elsewhere in the file)
     sites = [out["sites"][k] | {"_col": k[3]} for k in sorted(out["sites"])]
     per_fn = {}
@@ -514,8 +908,14 @@ def scan(repo_root):
         by_class[c["class"]] = by_class.get(c["class"], 0) + 1
     out["sites"] = sites
     out["stale"] = [c for c in sites if c["class"] == "stale"]
-    out["census"] = {"files": nfiles, "functions": nfuncs, "generators": ngens,
-                     "event_construction_sites": len(sites), "by_time_expression_class": by_class,
+    by_dir = {}
+    for c in sites:
+        d = c["file"].split("/")[0]
+        by_dir[d] = by_dir.get(d, 0) + 1
+    out["census"] = {"scanned": list(subdirs), "files": nfiles, "functions": nfuncs, "generators": ngens,
+                     "event_construction_sites": len(sites), "sites_by_directory": by_dir,
+                     "by_time_expression_class": by_class,
+                     "records_with_a_time_field_not_events": len(out["non_events"]),
                      "sites_in_generators": sum(1 for c in sites if c["generator"]),
                      "loops_with_a_suspension": len(out["loops"])}
     out["spin"] = [r for r in out["loops"] if r.get("certificate") is None]
